@@ -246,7 +246,9 @@ def verify_function(qualname, contract, schema, timeout_ms=10000, contracts=None
         argnames = [a.arg for a in fi.node.args.args]
         params = contract.get("params", {})
         for a in argnames:
-            if a == "self" and fi.cls is not None:
+            if a == "self" and "make_env" in contract:
+                pass
+            elif a == "self" and fi.cls is not None:
                 env["self"] = it.new_obj("self", recv_classes)
                 # refine: exactly the receiver classes (no further subclass expansion)
                 env["self"] = ObjV(env["self"].ref, recv_classes)
@@ -257,6 +259,8 @@ def verify_function(qualname, contract, schema, timeout_ms=10000, contracts=None
                 env["cls"] = ClassV(contract.get("cls", fi.cls), mod)
             elif a in params:
                 env[a] = make_param(it, a, params[a])
+            elif "make_env" in contract:
+                pass
             else:
                 raise Unsupported("contract for %s gives no kind for parameter %s" % (qualname, a))
         for a in params:
@@ -264,6 +268,8 @@ def verify_function(qualname, contract, schema, timeout_ms=10000, contracts=None
                 env[a] = make_param(it, a, params[a])  # locals of the enclosing function visible to a fragment
         for gname, gkind in contract.get("ghost_params", {}).items():
             env[gname] = make_param(it, gname, gkind)
+        if "make_env" in contract:
+            env.update(contract["make_env"](it))  # contract-built pre-state (objects of concrete shape with symbolic contents)
         it.expr_stubs = contract.get("stubs")
         it.ghost_env = env
         it.func_stack.append(fi.qualname)
